@@ -83,13 +83,14 @@ def free_ids(I):
     return fp, ft
 
 
-def task_bbisim(m_eager, m_lazy, I):
+def task_bbisim(m_eager, m_lazy, I, eof=True):
+    """eof=False: parsers without an end function are never given the end-of-input symbol - the certificate covers bytes only"""
     fp, ft = free_ids(I)
-    return "bbisim %d %s %d %s\n%s\n%s" % (len(fp), " ".join(map(str, fp)), len(ft), " ".join(map(str, ft)), export.text_dfa(m_eager), export.text_dfa(m_lazy))
+    return "%s %d %s %d %s\n%s\n%s" % ("bbisim" if eof else "bbisim0", len(fp), " ".join(map(str, fp)), len(ft), " ".join(map(str, ft)), export.text_dfa(m_eager), export.text_dfa(m_lazy))
 
 
-def task_bisim(m1, m2):
-    return "bisim\n" + export.text_dfa(m1) + "\n" + export.text_dfa(m2)
+def task_bisim(m1, m2, eof=True):
+    return ("bisim\n" if eof else "bisim0\n") + export.text_dfa(m1) + "\n" + export.text_dfa(m2)
 
 
 def coq_certs(dirname, items, per_file=8, timeout=900):
